@@ -230,6 +230,18 @@ class __Class(_pre.Pregex):
         super().__init__(pattern, escape=False)
 
 
+    @staticmethod
+    def _to_char(c: str or _pre.Pregex) -> str:
+        '''
+        Returns the single character that is represented by the provided \
+        string or token.
+
+        :param str | Pregex c: Either a string of length one or a token.
+        '''
+        c = str(c)
+        return c[1:] if len(c) == 2 and c.startswith("\\") else c
+
+
     def _get_verbose_pattern(self) -> str:
         '''
         Returns a verbose representation of this class's pattern.
@@ -1025,7 +1037,7 @@ class AnyBetween(__Class):
             else:
                 message = f"Argument \"{c}\" is neither a string nor a token."
                 raise _ex.InvalidArgumentTypeException(message)
-        start, end = str(start), str(end)
+        start, end = __class__._to_char(start), __class__._to_char(end)
         if ord(start) >= ord(end):
             raise _ex.InvalidRangeException(start, end)
         start = f"\\{start}" if start in __class__._to_escape else start
@@ -1072,7 +1084,7 @@ class AnyButBetween(__Class):
             else:
                 message = f"Argument \"{c}\" is neither a string nor a token."
                 raise _ex.InvalidArgumentTypeException(message)
-        start, end = str(start), str(end)
+        start, end = __class__._to_char(start), __class__._to_char(end)
         if ord(start) >= ord(end):
             raise _ex.InvalidRangeException(start, end)
         start = f"\\{start}" if start in __class__._to_escape else start
@@ -1118,8 +1130,8 @@ class AnyFrom(__Class):
             else:
                 message = f"Argument \"{c}\" is neither a string nor a token."
                 raise _ex.InvalidArgumentTypeException(message)
-        chars = tuple((f"\\{c}" if c in __class__._to_escape else c) \
-            if isinstance(c, str) else str(c) for c in chars)
+        chars = tuple(c if isinstance(c, str) else __class__._to_char(c) for c in chars)
+        chars = tuple(f"\\{c}" if c in __class__._to_escape else c for c in chars)
         super().__init__(f"[{''.join(chars)}]", is_negated=False)
 
 
@@ -1161,8 +1173,8 @@ class AnyButFrom(__Class):
             else:
                 message = f"Argument \"{c}\" is neither a string nor a token."
                 raise _ex.InvalidArgumentTypeException(message)
-        chars = tuple((f"\{c}" if c in __class__._to_escape else c)
-            if isinstance(c, str) else str(c) for c in chars)
+        chars = tuple(c if isinstance(c, str) else __class__._to_char(c) for c in chars)
+        chars = tuple(f"\\{c}" if c in __class__._to_escape else c for c in chars)
         super().__init__(f"[^{''.join(chars)}]", is_negated=True)
 
 
